@@ -21,11 +21,6 @@ def wfB (t : Table) : Bool :=
     nodupB (f.imports.map (·.ref)) && nodupB (f.exports.map (·.alias)) &&
     !f.imports.any (·.ref = f.exportsRef) && !f.exports.any (·.ref = f.exportsRef))
 
-/-- a local binding exported under several names has one export location (false for `export {x as a, x as b}`) -/
-def locInjB (t : Table) : Bool :=
-  t.all (fun f => f.exports.all (fun e1 => f.exports.all (fun e2 =>
-    e1.ref ≠ e2.ref || (findImport f e1.ref).isSome || e1.loc = e2.loc)))
-
 /-- successors of a (module, export name) request in ResolveExport -/
 def succs (T : EsModules.Table) (x : Nat × Name) : List (Nat × Name) × Bool :=
   match T[x.1]? with
@@ -94,7 +89,6 @@ def thmCheck (t : Table) (skip : List String := []) : String :=
         | some names => sameSet names ((resolved.getD m []).map (·.1))
         | none => false)
       if !keysOk then "FAIL:keys" else
-      if !skip.contains "loc-inj" && !locInjB t then "hyp:loc-inj" else
       if !skip.contains "stratified" && !stratifiedB t then "hyp:stratified" else
       if !skip.contains "reexports-resolve" && !reexportsResolveB t then "hyp:reexports-resolve" else
       let names := "zz" :: "default" :: allNames t
